@@ -831,3 +831,55 @@ fn c14_t0_init_free_stack_matches_disk_list() {
 	std::mem::forget(t);
 }
 }
+
+// =====================================================================================
+// C14.T1c: ValueTable::claim_entries (multitree columns claim node slots at commit time, before the record is written):
+// from any in-memory free stack of n entries (distinct, below the fill mark, head = top of the stack) it hands out the
+// stack entries from the top, then fresh slots at the fill mark; head, fill mark and stack follow; the header is marked
+// dirty whenever head or fill mark changed (otherwise the on-disk header keeps pointing at a slot that is now in use).
+// =====================================================================================
+fn claim_case(n: usize, num: usize) {
+	let filled: u64 = kani::any();
+	kani::assume(filled >= 1 && filled <= 6);
+	let s: [u64; 2] = kani::any();
+	let mut stack = Vec::with_capacity(4);
+	let mut i = 0;
+	while i < 2 { if i < n { kani::assume(s[i] >= 1 && s[i] < filled); stack.push(s[i]); } i += 1; }
+	if n == 2 { kani::assume(s[0] != s[1]); }
+	let t = mk_mt(TableId::new(0, 0), 32, false, 8, stack);
+	t.filled.store(filled, Ordering::Relaxed);
+	t.last_removed.store(if n > 0 { s[n - 1] } else { 0 }, Ordering::Relaxed);
+	let got = t.claim_entries(num).unwrap();
+	assert!(got.len() == num, "C14.T1c claim returns the requested number of slots");
+	let popped = if num < n { num } else { n };
+	let mut k = 0;
+	while k < 3 {
+		if k < num {
+			let want = if k < popped { s[n - 1 - k] } else { filled + (k - popped) as u64 };
+			assert!(got[k] == want, "C14.T1c free slots are handed out from the head of the list, then fresh slots at the fill mark");
+			assert!(got[k] != 0, "C14.T1c the header slot is never handed out");
+		}
+		k += 1;
+	}
+	assert!(t.filled.load(Ordering::Relaxed) == filled + (num - popped) as u64, "C14.T1c the fill mark advances by the number of fresh slots");
+	assert!(t.last_removed.load(Ordering::Relaxed) == if n > popped { s[n - 1 - popped] } else { 0 }, "C14.T1c the head of the free list is the first slot not handed out");
+	let left = free_stack_of(&t);
+	assert!(left.len() == n - popped, "C14.T1c handed-out slots leave the in-memory free stack");
+	if n - popped == 1 { assert!(left[0] == s[0], "C14.T1c the rest of the stack is untouched"); }
+	if num > 0 { assert!(t.dirty_header.load(Ordering::Relaxed), "C14.T1c header marked dirty when head or fill mark changed"); }
+	kani::cover!(num > 0);
+	std::mem::forget(got); std::mem::forget(left); std::mem::forget(t);
+}
+macro_rules! c14_t1c {
+	($name:ident, $n:expr, $num:expr) => {
+		crate::verif_tbl! {
+			#[kani::proof]
+			#[kani::unwind(8)]
+			fn $name() { claim_case($n, $num) }
+		}
+	};
+}
+c14_t1c!(c14_t1c_claim_from_list_2_take_1, 2, 1);
+c14_t1c!(c14_t1c_claim_from_list_2_take_3, 2, 3);
+c14_t1c!(c14_t1c_claim_from_list_1_take_1, 1, 1);
+c14_t1c!(c14_t1c_claim_from_empty_take_2, 0, 2);
